@@ -334,7 +334,6 @@ func faultTable() []faultCase {
 	mark("Defer-native/stop-while-unwinding", "host-panic:deferred-native-call-while-unwinding", "nil pointer dereference")
 	mark("Defer-native/panics-at-return", "host-panic:deferred-native-panic-at-return", "native panic")
 	mark("CallNative/callback-panics", "host-panic:callback-panic-is-fatal", "cb")
-	mark("Recover/named-result-assigned-under-nil-test", "host-panic:recover-named-result-IsNil", "reflect.Value.IsNil on string Value")
 
 	// ---- templates
 	g := native.Declarations{"v": (*any)(nil), "s": (*string)(nil), "stop": hostDecls["Stop"], "fatal": hostDecls["Fatal"], "boom": hostDecls["PanicString"]}
